@@ -253,3 +253,5 @@ PROPS["C12"]["mir"].append(ob("fsync_flag_released", "ob_storage", "fsync_flag_r
 PROPS["C03"]["mir"] += [ob("read_blobs_max_id", "ob_storage", "read_blobs_max_id"), ob("init_ids_above_all", "ob_storage", "init_ids_above_all")]
 PROPS["C07"]["mir"] += [ob("read_blobs_max_id_c07", "ob_storage", "read_blobs_max_id"), ob("init_ids_above_all_c07", "ob_storage", "init_ids_above_all")]
 PROPS["C15"]["mir"] += [ob("read_blobs_max_id_c15", "ob_storage", "read_blobs_max_id")]
+
+PROPS["C09"]["mir"].append(ob("go_right_continues", "ob_bptree", "go_right_continues"))
